@@ -424,6 +424,8 @@ pub struct Vm {
   pub heap: Ghost<Map<(InstRef, int), Value>>,
   /// ghost: the call this handler handed to resolve_call: (callee, argument count, operand stack at that moment)
   pub called: Ghost<Option<(Value, u8, Seq<Value>)>>,
+  /// ghost (launchops unit): fibers handed to the run queue by a launch, in order
+  pub launched: Ghost<Seq<int>>,
   /// ghost (iterops unit): the by-name invocation an iteration handler handed to Vm::invoke: (receiver, method name, argument count, stack)
   pub invoked: Ghost<Option<(Value, LyStr, u8, Seq<Value>)>>,
   /// ghost (calls unit): leaf calls made by the real resolve_call, in order
